@@ -36,6 +36,7 @@ type mobs struct {
 	Finished bool
 	After    bool // some Next after the end returned true
 	Err      string
+	BadExtra string // a query whose other offset fields (add_offset, offset_date, offset_rate, offset_peer) are inconsistent
 }
 
 func mkMsgs(ids []int64) []tg.MessageClass {
@@ -46,9 +47,61 @@ func mkMsgs(ids []int64) []tg.MessageClass {
 	return r
 }
 
+// extra carries the other offset fields of a query (they do not select the page in this server, but the
+// iterator must keep them consistent with the last message it saw) and the server's memory of them.
+type extra struct {
+	AddOffset, OffsetDate, OffsetRate int
+	Peer                              tg.InputPeerClass
+	Full                              bool // OffsetRate / Peer are present (QueryFunc path)
+}
+type mserver struct {
+	lastRate int
+	bad      string
+	done     bool // Next has returned false: the answers to later queries are ignored by the iterator
+}
+
+func (m *mserver) checkExtra(offsetID int, x extra) {
+	if m.done {
+		return
+	}
+	fail := func(f string, a ...interface{}) {
+		if m.bad == "" {
+			m.bad = fmt.Sprintf("query with offset_id %d: ", offsetID) + fmt.Sprintf(f, a...)
+		}
+	}
+	if x.AddOffset != 0 {
+		fail("add_offset %d", x.AddOffset)
+	}
+	wantDate := 0
+	if offsetID != 0 {
+		wantDate = 1000 + offsetID // the date of the message with that id
+	}
+	if x.OffsetDate != wantDate {
+		fail("offset_date %d, want %d", x.OffsetDate, wantDate)
+	}
+	if x.Full {
+		if x.OffsetRate != m.lastRate {
+			fail("offset_rate %d, want next_rate %d of the previous slice", x.OffsetRate, m.lastRate)
+		}
+		switch p := x.Peer.(type) {
+		case *tg.InputPeerEmpty:
+			if offsetID != 0 {
+				fail("offset_peer empty after a page")
+			}
+		case *tg.InputPeerUser:
+			if offsetID == 0 || p.UserID != 10 || p.AccessHash != 7 {
+				fail("offset_peer %+v", p)
+			}
+		default:
+			fail("offset_peer %T", x.Peer)
+		}
+	}
+}
+
 // serveMessages is the mock server: ids below the offset (offset 0 = from the top), at most limit.
-func serveMessages(c mcase, offsetID, limit int, queries *[]int64) tg.MessagesMessagesClass {
+func serveMessages(c mcase, offsetID, limit int, queries *[]int64, m *mserver, x extra) tg.MessagesMessagesClass {
 	*queries = append(*queries, int64(offsetID))
+	m.checkExtra(offsetID, x)
 	var rem []int64
 	for _, id := range c.H {
 		if offsetID == 0 || id < int64(offsetID) {
@@ -67,7 +120,13 @@ func serveMessages(c mcase, offsetID, limit int, queries *[]int64) tg.MessagesMe
 		}
 	}
 	users := []tg.UserClass{&tg.User{ID: 10, AccessHash: 7}}
-	slice := &tg.MessagesMessagesSlice{Messages: mkMsgs(page), Count: int(c.Cnt), Users: users}
+	slice := &tg.MessagesMessagesSlice{Messages: mkMsgs(page), Count: int(c.Cnt), Users: users, NextRate: 500 + len(*queries)}
+	defer func(k int) {
+		// only a slice answer carries next_rate; the iterator must send it back as offset_rate
+		if k == 0 || ((k == 2) && !complete) {
+			m.lastRate = slice.NextRate
+		}
+	}(c.Pol)
 	channel := &tg.MessagesChannelMessages{Messages: mkMsgs(page), Count: int(c.Cnt), Users: users}
 	plain := &tg.MessagesMessages{Messages: mkMsgs(page), Users: users}
 	switch c.Pol {
@@ -93,6 +152,7 @@ func serveMessages(c mcase, offsetID, limit int, queries *[]int64) tg.MessagesMe
 type mInvoker struct {
 	c       mcase
 	queries *[]int64
+	srv     *mserver
 }
 
 func (m mInvoker) Invoke(ctx context.Context, input bin.Encoder, output bin.Decoder) error {
@@ -104,16 +164,17 @@ func (m mInvoker) Invoke(ctx context.Context, input bin.Encoder, output bin.Deco
 	if !ok {
 		return fmt.Errorf("unexpected output %T", output)
 	}
-	box.Messages = serveMessages(m.c, req.OffsetID, req.Limit, m.queries)
+	box.Messages = serveMessages(m.c, req.OffsetID, req.Limit, m.queries, m.srv, extra{AddOffset: req.AddOffset, OffsetDate: req.OffsetDate})
 	return nil
 }
 
-func driveM(it *messages.Iterator, fuel int, queries *[]int64) (o mobs) {
+func driveM(it *messages.Iterator, fuel int, queries *[]int64, srv *mserver) (o mobs) {
 	ctx := context.Background()
 	p, v := hx.Recover(func() {
 		for i := 0; i < fuel; i++ {
 			if !it.Next(ctx) {
 				o.Finished = true
+				srv.done = true
 				break
 			}
 			o.Yielded = append(o.Yielded, int64(it.Value().Msg.GetID()))
@@ -138,15 +199,21 @@ func driveM(it *messages.Iterator, fuel int, queries *[]int64) (o mobs) {
 
 func runM(c mcase, viaRPC bool) mobs {
 	var queries []int64
+	srv := &mserver{}
+	var o mobs
 	if viaRPC {
-		raw := tg.NewClient(mInvoker{c, &queries})
+		raw := tg.NewClient(mInvoker{c, &queries, srv})
 		it := messages.NewQueryBuilder(raw).GetHistory(&tg.InputPeerUser{UserID: 10, AccessHash: 7}).BatchSize(c.Limit).Iter()
-		return driveM(it, c.Fuel, &queries)
+		o = driveM(it, c.Fuel, &queries, srv)
+	} else {
+		q := messages.QueryFunc(func(ctx context.Context, req messages.Request) (tg.MessagesMessagesClass, error) {
+			return serveMessages(c, req.OffsetID, req.Limit, &queries, srv,
+				extra{AddOffset: req.AddOffset, OffsetDate: req.OffsetDate, OffsetRate: req.OffsetRate, Peer: req.OffsetPeer, Full: true}), nil
+		})
+		o = driveM(messages.NewIterator(q, c.Limit), c.Fuel, &queries, srv)
 	}
-	q := messages.QueryFunc(func(ctx context.Context, req messages.Request) (tg.MessagesMessagesClass, error) {
-		return serveMessages(c, req.OffsetID, req.Limit, &queries), nil
-	})
-	return driveM(messages.NewIterator(q, c.Limit), c.Fuel, &queries)
+	o.BadExtra = srv.bad
+	return o
 }
 
 // ---------- dialogs ----------
@@ -359,6 +426,9 @@ func main() {
 		if !eq64(o.Yielded, o2.Yielded) || !eq64(o.Queries, o2.Queries) || o.Finished != o2.Finished {
 			c.Violate("messages-rpc-path-differs", fmt.Sprintf("GetHistory builder path differs from QueryFunc path on %+v: %v/%v vs %v/%v", mc, o.Yielded, o.Queries, o2.Yielded, o2.Queries), sh, ix, mc)
 			return
+		}
+		if o.BadExtra != "" || o2.BadExtra != "" {
+			c.Violate("messages-inconsistent-offset-fields", fmt.Sprintf("messages iterator over %v limit %d pol %d: %s %s", mc.H, mc.Limit, mc.Pol, o.BadExtra, o2.BadExtra), sh, ix, mc)
 		}
 		if mc.Pol <= 3 { // servers within the contract
 			if !o.Finished || o.After || !eq64(o.Yielded, mc.H) {
